@@ -102,6 +102,8 @@ fn js_result_slot_probe(rep: &mut Report) {
     #[repr(C)] #[derive(Default, Clone, Copy)] struct Wide { x: u64 }
     #[repr(C)] #[derive(Default, Clone, Copy)] struct Mix { a: u8, x: u64 }
     #[repr(C)] #[derive(Default, Clone, Copy)] struct Nine { x: f64, a: u8 }
+    #[repr(C)] #[derive(Default, Clone, Copy)] struct Twelve { a: u32, b: u32, c: u32 }
+    #[repr(C)] #[derive(Default, Clone, Copy)] struct Ten { a: u16, b: u16, c: u16, d: u16, e: u16 }
     fn lay<T: Default, E: Default>() -> (usize, usize, usize) {
         let r: DiplomatResult<T, E> = Err::<T, E>(E::default()).into();
         let base = &r as *const _ as usize;
@@ -115,11 +117,12 @@ fn js_result_slot_probe(rep: &mut Report) {
         grid.push(($on, "Tiny", lay::<$ot, Tiny>())); grid.push(($on, "Two", lay::<$ot, Two>())); grid.push(($on, "Half", lay::<$ot, Half>()));
         grid.push(($on, "Five", lay::<$ot, Five>())); grid.push(($on, "Four", lay::<$ot, Four>())); grid.push(($on, "Six", lay::<$ot, Six>()));
         grid.push(($on, "Wide", lay::<$ot, Wide>())); grid.push(($on, "Mix", lay::<$ot, Mix>())); grid.push(($on, "Nine", lay::<$ot, Nine>()));
+        grid.push(($on, "Twelve", lay::<$ot, Twelve>())); grid.push(($on, "Ten", lay::<$ot, Ten>()));
     } }
     row!("write", ()); // the success value is a string that travels through the write buffer: on the wire `Result<(), E>`
     row!("()", ()); row!("u8", u8); row!("i16", i16); row!("u32", u32); row!("f64", f64); row!("bool", bool);
-    row!("Tiny", Tiny); row!("Two", Two); row!("Half", Half); row!("Five", Five); row!("Four", Four); row!("Six", Six); row!("Wide", Wide); row!("Mix", Mix); row!("Nine", Nine);
-    let mut src = String::from("#[diplomat::bridge]\nmod ffi {\n    #[diplomat::out] pub struct Tiny { pub a: u8 }\n    #[diplomat::out] pub struct Two { pub a: u8, pub b: u8 }\n    #[diplomat::out] pub struct Half { pub a: u16 }\n    #[diplomat::out] pub struct Five { pub a: u8, pub b: u8, pub c: u8, pub d: u8, pub e: u8 }\n    #[diplomat::out] pub struct Four { pub x: u32 }\n    #[diplomat::out] pub struct Six { pub a: u16, pub b: u16, pub c: u16 }\n    #[diplomat::out] pub struct Wide { pub x: u64 }\n    #[diplomat::out] pub struct Mix { pub a: u8, pub x: u64 }\n    #[diplomat::out] pub struct Nine { pub x: f64, pub a: u8 }\n    #[diplomat::opaque]\n    pub struct Src;\n    impl Src {\n");
+    row!("Tiny", Tiny); row!("Two", Two); row!("Half", Half); row!("Five", Five); row!("Four", Four); row!("Six", Six); row!("Wide", Wide); row!("Mix", Mix); row!("Nine", Nine); row!("Twelve", Twelve); row!("Ten", Ten); row!("u64", u64);
+    let mut src = String::from("#[diplomat::bridge]\nmod ffi {\n    #[diplomat::out] pub struct Tiny { pub a: u8 }\n    #[diplomat::out] pub struct Two { pub a: u8, pub b: u8 }\n    #[diplomat::out] pub struct Half { pub a: u16 }\n    #[diplomat::out] pub struct Five { pub a: u8, pub b: u8, pub c: u8, pub d: u8, pub e: u8 }\n    #[diplomat::out] pub struct Four { pub x: u32 }\n    #[diplomat::out] pub struct Six { pub a: u16, pub b: u16, pub c: u16 }\n    #[diplomat::out] pub struct Wide { pub x: u64 }\n    #[diplomat::out] pub struct Mix { pub a: u8, pub x: u64 }\n    #[diplomat::out] pub struct Nine { pub x: f64, pub a: u8 }\n    #[diplomat::out] pub struct Twelve { pub a: u32, pub b: u32, pub c: u32 }\n    #[diplomat::out] pub struct Ten { pub a: u16, pub b: u16, pub c: u16, pub d: u16, pub e: u16 }\n    #[diplomat::opaque]\n    pub struct Src;\n    impl Src {\n");
     for (i, (ok, err, _)) in grid.iter().enumerate() {
         if *ok == "write" {
             src += &format!("        pub fn m{i}x(&self, w: &mut DiplomatWrite) -> Result<(), {err}> {{ unimplemented!() }}\n");
@@ -132,7 +135,7 @@ fn js_result_slot_probe(rep: &mut Report) {
     let wty = |n: &str| -> String { match n {
         "()" => "unit".into(), "write" => "write".into(), "u8" | "bool" => "(s 1)".into(), "i16" => "(s 2)".into(), "u32" => "(s 4)".into(), "f64" => "(s 8)".into(),
         "Tiny" => "(st (s 1))".into(), "Two" => "(st (s 1) (s 1))".into(), "Half" => "(st (s 2))".into(), "Five" => "(st (s 1) (s 1) (s 1) (s 1) (s 1))".into(),
-        "Four" => "(st (s 4))".into(), "Six" => "(st (s 2) (s 2) (s 2))".into(), "Wide" => "(st (s 8))".into(), "Mix" => "(st (s 1) (s 8))".into(), "Nine" => "(st (s 8) (s 1))".into(),
+        "Four" => "(st (s 4))".into(), "Six" => "(st (s 2) (s 2) (s 2))".into(), "Wide" => "(st (s 8))".into(), "Mix" => "(st (s 1) (s 8))".into(), "Nine" => "(st (s 8) (s 1))".into(), "Twelve" => "(st (s 4) (s 4) (s 4))".into(), "Ten" => "(st (s 2) (s 2) (s 2) (s 2) (s 2))".into(), "u64" => "(s 8)".into(),
         o => panic!("{o}") } };
     let mlines: Vec<String> = grid.iter().map(|(ok, err, _)| format!("(c10slot {} {})", wty(ok), wty(err))).collect();
     let model: Vec<String> = match crate::model::run_model("C10", &mlines) {
